@@ -12,7 +12,7 @@ import KiraModel.Exec.SuiteClock
 import KiraModel.Exec.SuiteSpatial
 import KiraModel.Exec.SuiteWav
 
-open K.Exec K.Exec.Clock
+open K.Exec K.Exec.Clock K.Exec.Wav
 
 /-- A suite: state, initial state, step on a tokenised op line. `none` = unparsable op. -/
 structure Suite where
